@@ -9,6 +9,10 @@
                over whole index ranges, q= the values of those accessors, a_utf_len and a_str_cmp_ at
                indices derived from the operation number, which the model computes too:
                coq/C06/StrAccDefs.v) and the lines must be identical.
+  tie 2        translator tools/c2str.py (wired by tools/vstr.py): the functions of src/str.c / include/a/str.h listed in
+               c2str.functions() are regenerated from the CURRENT sources on every run (module Gen.StrGen) and proved equal to the
+               model coq/C06/StrDefs.v by harness/C06/TieStr*.v, one `Theorem tie_<function>` each, for every string (invariant
+               not assumed), every argument and every allocator schedule; Print Assumptions: closed.
   search       oracle_case(): the property itself, written independently of the Rocq model, is
                evaluated on what the C printed (abstract byte strings kept in Python); a sanitizer
                abort is a failing input too.  Failing cases are shrunk (ddmin on the op list).
@@ -32,9 +36,10 @@ from concurrent.futures import ThreadPoolExecutor
 from pathlib import Path
 
 try:
-    from tools import vlib
+    from tools import vlib, vstr
 except ImportError:  # pragma: no cover
     import vlib
+    import vstr
 
 PID = "C06"
 H = vlib.VERIF / "harness" / PID
@@ -928,7 +933,10 @@ def run(ctx):
     chunks = [cases[i:i + chunk] for i in range(0, len(cases), chunk)]
     tot = {"ops": 0, "mismatch": [], "fail": [], "branches": {}, "nontrivial": set(), "samples": []}
     workers = max(2, min(8, vlib.NPROC // 2))
-    with ThreadPoolExecutor(max_workers=workers) as ex:
+    with ThreadPoolExecutor(max_workers=workers) as ex, ThreadPoolExecutor(max_workers=1) as tie_ex:
+        # second tie, in parallel with the correspondence: the functions of str.c regenerated by tools/c2str.py and proved
+        # equal to the model (harness/C06/TieStr*.v)
+        tie_job = tie_ex.submit(vstr.str_translate_and_tie, ctx)
         for r in ex.map(lambda ch: process(cbin, mbin, ch), chunks):
             tot["ops"] += r["ops"]
             tot["mismatch"] += r["mismatch"]
@@ -937,6 +945,7 @@ def run(ctx):
             tot["samples"] += r["samples"]
             for k, v in r["branches"].items():
                 tot["branches"][k] = tot["branches"].get(k, 0) + v
+    tie_job.result()
     ctx.count(evaluations=tot["ops"], nontrivial=len(tot["nontrivial"]))
     ctx.cov["rule"] = ("evaluations = operations executed by both the C implementation and the extracted model and compared "
                        "line by line (return value, both objects' num/mem/whole heap block, allocator events); "
@@ -1025,11 +1034,23 @@ META = {
             "appends exactly the formatter's output on both the one-pass and the measure-grow-format-again path; comparisons "
             "give the sign of bytewise lexicographic order with length tie-break; trims remove the maximal prefix/suffix. "
             "Tie: extracted model vs the C (ASan+UBSan, replacement a_alloc with fault schedule that always moves on realloc): "
-            "return value, both objects' ptr/num/mem/block bytes and allocator events after every operation.",
-    "note": "Trusted: Coq kernel; extraction (ExtrOcamlBasic only) + drivers; hand-written model coq/C06/StrDefs.v tied by "
+            "return value, both objects' ptr/num/mem/block bytes and allocator events after every operation. "
+            "Second tie (translator tools/c2str.py, re-run on the current sources every time): a_str_setn_, setn, dtor, swap, setm_, "
+            "setm, exit, cmp_, cmp, cmpn, cmps, getc_, getc, catc_, catc, getn_, getn, catn_, catn, cats_, cats, cat_, cat (23, "
+            "harness/C06/TieStr.v) and rtrim_, rtrim, ltrim_, ltrim, trim_, trim, a_utf_catc, a_str_catv (8, TieStrLoops.v; loops as "
+            "Fixpoints on fuel, for every fuel above the length) are regenerated from clang's AST (a_size arithmetic with explicit "
+            "wrap, checked block accesses, a_alloc with schedule and events, dangling-pointer guard) and each is PROVED equal to the "
+            "model for all strings, arguments and schedules. The invariant is not assumed except, stated exactly: num < 2^64 for "
+            "the trims and num <= |block| for ltrim/trim (both consequences of the proved invariant), |out| < INT_MAX for catv (the "
+            "precondition of the formatted append in every theorem). isspace, memchr, vsnprintf and a_utf_encode enter by their "
+            "contracts. Correspondence-only: a_str_catf (variadic wrapper), a_utf_len, the accessors a_str_ptr/len/mem/at/at_/of, "
+            "a_str_new/die/ctor.",
+    "note": "Trusted: Coq kernel; extraction (ExtrOcamlBasic only) + drivers; translator tools/c2str.py as a reader of the C (its "
+            "output is proved equal to the model on every run, so it is not trusted to agree with the model); hand-written model "
+            "coq/C06/StrDefs.v tied by the translator theorems for the functions listed and by "
             "differential testing on the generated histories (sizes relative to the running state hit every reservation "
             "boundary); vsnprintf is modelled by its contract (StrDefs.vsn), memcpy/memmove/memchr/memcmp/strlen as list "
             "operations, isspace as the C-locale set, char signed; preconditions op_ok (sizes below 2^64 - 8 etc.) are stated "
             "in the theorems. No axioms.",
-    "technique": "Rocq proof (invariant + refinement to abstract byte strings by induction over histories and fault schedules) + extracted-model vs C correspondence under ASan",
+    "technique": "Rocq proof (invariant + refinement to abstract byte strings by induction over histories and fault schedules) + C-to-Gallina translator with per-function tie theorems + extracted-model vs C correspondence under ASan",
 }
